@@ -293,6 +293,12 @@ def racy_sets(prog: Program, fs0: dict[str, Any]) -> tuple[set[str], set[str]]:
     for ref in prog.order:
         if prog.stages[ref].get("choice"):
             status_racy |= {ref} | prog.descendants(ref)
+    # a first-of / quorum join that an OR-split does not activate: whether it is skipped or has already started on
+    # another upstream's completion when the split is evaluated is the schedule's choice
+    for ref in prog.order:
+        for x, cond in (prog.stages[ref].get("split") or {}).items():
+            if cond != "True" and x in prog.stages and _first_of(prog, x):
+                status_racy |= {x} | prog.descendants(x)
     return status_racy, view_racy
 
 
